@@ -15,6 +15,14 @@ VERIF = os.path.dirname(os.path.dirname(os.path.abspath(__file__)))
 PROPS = ["C%02d" % i for i in range(1, 21)]
 
 
+# behaviour-preserving edits on which a check is allowed to answer "cannot decide" (exit 2) - never a violation
+UNDECIDED = {}
+_u = os.path.join(VERIF, "selftest", "benign", "UNDECIDED.json")
+if os.path.exists(_u):
+    import json
+    UNDECIDED = json.load(open(_u))
+
+
 def run(patch, props):
     d = tempfile.mkdtemp(prefix="vself_", dir="/tmp")
     out = {}
@@ -64,7 +72,8 @@ def main():
         for fut, props, want in futs:
             patch, out = fut.result()
             name = os.path.relpath(patch, VERIF)
-            wrong = [p for p in props if out.get(p) != want]
+            und = UNDECIDED.get(os.path.basename(patch), {})
+            wrong = [p for p in props if out.get(p) != want and not (want == 0 and out.get(p) == 2 and p in und)]
             flag = "ok  " if not wrong and out.get("compiles") else "FAIL"
             if flag == "FAIL":
                 bad += 1
